@@ -18,8 +18,10 @@ use crate::provx::{new_mt_rt, sse, App, Provider, Resp};
 
 const CANARY: &str = "sk-CANARY-9f2b7c41d8e64a0fb3c5";
 
-const SOURCES: [&str; 15] = [
+const SOURCES: [&str; 16] = [
     "env_rip_key",
+    // the same variable with surrounding whitespace (a trailing newline from `$(cat keyfile)`)
+    "env_rip_key_padded",
     "env_openai_key",
     "env_openrouter_key",
     "inline_global",
@@ -37,7 +39,7 @@ const SOURCES: [&str; 15] = [
     "malformed_global_semicolon_after_key",
     "malformed_parent_unquoted_member",
 ];
-const OUTCOMES: [&str; 5] = ["success_with_tool_call", "http_401_echoing_request", "transport_error", "provider_500", "tool_failure"];
+const OUTCOMES: [&str; 6] = ["success_with_tool_call", "http_401_echoing_request", "transport_error", "provider_500", "tool_failure", "call_without_response_id"];
 
 fn encodings() -> Vec<(String, String)> {
     let b64 = {
@@ -107,7 +109,7 @@ fn worker(args: &[String]) -> i32 {
     }
     // provider script per outcome
     let call = json!({"type": "response.output_item.done", "output_index": 0, "item": {"type": "function_call", "id": "fc", "call_id": "c1", "name": if outcome == "tool_failure" { "read" } else { "write" }, "arguments": if outcome == "tool_failure" { json!({"path": "missing.txt"}).to_string() } else { json!({"path": "o.txt", "content": "x"}).to_string() }}});
-    let first = Resp::Sse { chunks: vec![sse(&[json!({"type": "response.completed", "response": {"id": "r1"}}), call, Value::String("[DONE]".into())])], abort: false };
+    let first = Resp::Sse { chunks: vec![sse(&[json!({"type": "response.completed", "response": {"id": "r1"}}), call.clone(), Value::String("[DONE]".into())])], abort: false };
     let second = Resp::Sse { chunks: vec![sse(&[json!({"type": "response.output_text.delta", "delta": "ok"}), Value::String("[DONE]".into())])], abort: false };
     match outcome.as_str() {
         "http_401_echoing_request" => {
@@ -115,6 +117,8 @@ fn worker(args: &[String]) -> i32 {
             provider.runs.lock().unwrap().get_mut(key).unwrap().echo_body_in_error = true;
         }
         "provider_500" => provider.script(key, vec![Resp::Http { status: 500, body: "boom".into() }], true),
+        // a tool call but no response id: in the stateful mode the loop cannot continue (its error path)
+        "call_without_response_id" => provider.script(key, vec![Resp::Sse { chunks: vec![sse(&[call.clone(), Value::String("[DONE]".into())])], abort: false }, second.clone()], true),
         _ => provider.script(key, vec![first, second], true),
     }
     // workspace + configuration files
@@ -139,6 +143,13 @@ fn worker(args: &[String]) -> i32 {
             std::env::set_var("RIP_OPENRESPONSES_ENDPOINT", &endpoint);
             std::env::set_var("RIP_OPENRESPONSES_API_KEY", CANARY);
             key_source_label = Some("env:RIP_OPENRESPONSES_API_KEY");
+        }
+        "env_rip_key_padded" => {
+            std::env::set_var("RIP_OPENRESPONSES_ENDPOINT", &endpoint);
+            std::env::set_var("RIP_OPENRESPONSES_API_KEY", format!(" {CANARY}\n"));
+            key_source_label = Some("env:RIP_OPENRESPONSES_API_KEY");
+            // a value with a newline may be refused as a header: reaching the provider is not demanded
+            expect_key_received = false;
         }
         "env_openai_key" => {
             std::env::set_var("RIP_OPENRESPONSES_ENDPOINT", &endpoint);
